@@ -60,11 +60,15 @@ def family(op):
 
 BITS64 = False
 FUZZ = False
+PAR = False
+BSI_PARALLEL = {'BParOr', 'BClear', 'BRetainSet', 'BSum', 'BCompare', 'BBatchEqual', 'BBatchEqualValues', 'BMinMax', 'BTranspose', 'BTransposeCounts'}
 
 
 def attribute(v):
     """Which property a recorded deviation belongs to (None = latent/structural, not a verdict)."""
     p = attribute32(v)
+    if PAR and p in ('C19', 'C20') and v['op'] in BSI_PARALLEL:
+        return p + '+C12'   # in C12's race-detector runs a wrong answer of a goroutine-parallel BSI path also counts for C12
     if BITS64 and v['op'] in ('Decode', 'Ser64', 'Load64'):
         return 'C18'
     if FUZZ and p is not None and p not in ('C09', 'C14', 'C07', 'C08'):
@@ -82,6 +86,8 @@ BSI_UPDATE = {'BNew', 'BSetValue', 'BSetMany', 'BClear', 'BRetain', 'BParOr', 'B
 def attribute32(v):
     c, op = v['clause'], v['op']
     if op.startswith('B') and op[1:2].isupper():
+        if c == 'goroutine-leak' or (c == 'panic' and isinstance(v.get('detail'), str) and v['detail'].startswith('hang')):
+            return 'C12'
         if c in ('map', 'interference', 'read-api-inconsistent', 'cardinality', 'plane-outside-existence'):
             return 'C19' if op in BSI_UPDATE else 'C20'   # a query that changes the stored map breaks C20's independence clause
         return 'C19' if op in BSI_UPDATE else 'C20'
@@ -439,6 +445,10 @@ def c12(tier):
             {'kind': 'replay', 'model': ms[0], 'kinds': ['chunks'], 'sample': 1.0, 'shards': 4},
             {'kind': 'drive', 'profile': 'parallel', 'traces': 64 if q else 800, 'steps': 40, 'shards': 8, 'gomaxprocs': [1, 2, 4, 16]},
             {'kind': 'drive', 'profile': 'parallel', 'traces': 48 if q else 600, 'steps': 30, 'shards': 8, 'gomaxprocs': [1, 2, 4, 16], 'extra': ['-spread', '300']},
+            {'kind': 'drive', 'cmd': 'bsi', 'profile': 'update', 'traces': 96 if q else 1500, 'steps': 30, 'shards': 6, 'gomaxprocs': [1, 2, 4, 16],
+             'trace_module': 'TraceBSI.tla', 'trace_cfg': 'TraceBSI.cfg'},
+            {'kind': 'drive', 'cmd': 'bsi', 'profile': 'query', 'traces': 96 if q else 1500, 'steps': 30, 'shards': 6, 'gomaxprocs': [1, 2, 4, 16],
+             'trace_module': 'TraceBSI.tla', 'trace_cfg': 'TraceBSI.cfg'},
             {'kind': 'gate', 'configs': sorted(GATE_CONFIGS), 'runs': 12 if q else 150, 'gomaxprocs': [1, 2, 4, 16]},
             {'kind': 'walk', 'configs': WALK_QUICK if q else WALK_THOROUGH, 'walks': 1500 if q else 40000, 'gomaxprocs': [4, 16, 2, 1]},
         ],
